@@ -28,7 +28,8 @@ TNext ==
      \/ Ev.ev = "sys" /\ PSys(Ev)
      \/ Ev.ev = "fresh" /\ PFresh(Ev)
      \/ Ev.ev = "retry" /\ PRetry(Ev)
+     \/ Ev.ev = "follow" /\ PFollow(Ev)
      \/ Ev.ev = "end" /\ PEnd(Ev) /\ PrintT(<<"DONE", Ev.trace>>)
-     \/ Ev.ev \notin {"reset", "sys", "fresh", "retry", "end"} /\ PUnknown
+     \/ Ev.ev \notin {"reset", "sys", "fresh", "retry", "follow", "end"} /\ PUnknown
 TSpec == TInit /\ [][TNext]_<<pvars, l>>
 =============================================================================
